@@ -165,6 +165,22 @@ func reencodings(rng *rand.Rand, orig []byte) []mutant {
 			}
 		}
 	}
+	// OLVM: the chain id field of the payload as null (the signature binds the chain id by itself)
+	if base.Type == action.OLVM {
+		if i := bytes.Index(base.Data, []byte(`"chainID":`)); i >= 0 {
+			j := i + len(`"chainID":`)
+			k := j
+			for k < len(base.Data) && base.Data[k] >= '0' && base.Data[k] <= '9' {
+				k++
+			}
+			if t := core.DecodeTx(orig); t != nil && k > j {
+				t.Data = append(append(append([]byte{}, base.Data[:j]...), []byte("null")...), base.Data[k:]...)
+				if b := encodeSigned(t); b != nil {
+					out = append(out, mutant{Bytes: b, Label: kind + "/replay:olvm-chainid-null"})
+				}
+			}
+		}
+	}
 	// OLVM: the signer key field of the envelope is not what authenticates the transaction (the sender is
 	// recovered from the Ethereum signature)
 	if base.Type == action.OLVM {
@@ -230,6 +246,7 @@ func contentKey(b []byte) string {
 		if in.AccessList != nil && len(*in.AccessList) == 0 {
 			in.AccessList = nil
 		}
+		in.ChainID = nil // bound by the signature itself, the field is a copy
 		j, _ := json.Marshal(in)
 		f, _ := json.Marshal(t.Fee)
 		return "O|" + string(j) + "|" + string(f) + "|" + string(t.Signatures[0].Signed)
